@@ -80,7 +80,7 @@ fn main() {
         println!("{}", checks::c20::report_json(&src, path.as_deref(), &Default::default()));
         return;
     }
-    #[cfg(feature = "capi")]
+    #[cfg(feature = "native")]
     if id == "host-probe" {
         // tsverif host-probe <file> [--path P] [--eval]: the conversation with the scripted host of C19
         let src = std::fs::read_to_string(&cmd).expect("read");
